@@ -7,6 +7,7 @@ any cache limit, with eviction (`Release`, pruning) possible at every moment.
 -/
 import SemaModel.C11.Witness
 import SemaModel.C11.Progress
+import SemaModel.C11.Inv16
 import SemaModel.C11.Skeleton
 import SemaModel.Generated.FactsC11
 set_option linter.unusedSimpArgs false
@@ -95,6 +96,33 @@ theorem C11_released {s0 s : St} (hi : Init s0) (hv : s0.v = fixedV) (hr : Reach
             simp [St.unfinished, hlt, Thread.done] at this
             cases hp : (s.thr (.c T)).pc <;> simp [hp] at this <;> simp [stillHeld, hp] at h2
           · rw [ho.wr T (Nat.le_of_not_lt hlt)] at h1; simp at h1
+
+/-! ## C11_failed_dropped
+
+Full statement: once `Commit` of a FAILED transaction (a callback or a constructor of it returned an
+error, or `Commit(true)`) has returned, every cache object in its `writtenCaches` is scrapped and
+is in the manager map under no name — and stays so for ever (the statement is about every later
+reachable state).  The same holds, at once, for a cache the transaction replaced while it was
+running (`dropped`).  Hypotheses: as above; eviction at any moment included. -/
+
+theorem C11_failed_dropped {s0 s : St} (hi : Init s0) (hv : s0.v = fixedV) (hr : Reachable s0 s)
+    (T : TxId) (hdone : (s.thr (.c T)).pc = .cDone)
+    (hfail : (s.txs T).failed = true ∨ (s.txs T).commitFail = true) :
+    ∀ n o, (n, o) ∈ (s.txs T).written → (s.objs o).scrapped = true ∧ ∀ n', s.map n' ≠ some o := by
+  intro n o hm
+  obtain ⟨_, _, hf⟩ := inv_reachable_fd hi hv hr
+  have hb : bad (s.txs T) = true := by
+    unfold bad; rcases hfail with h | h <;> simp [h]
+  have := hf.rel T n o hm hb (by simp [releasedBy, hdone])
+  exact ⟨this.1, this.2.2⟩
+
+/-- a cache replaced in `writtenCaches` (third fix) is scrapped and out of the map -/
+theorem C11_replaced_dropped {s0 s : St} (hi : Init s0) (hv : s0.v = fixedV) (hr : Reachable s0 s)
+    (o : ObjId) (ho : o < s.nObj) (hd : (s.objs o).dropped ≠ none) :
+    (s.objs o).scrapped = true ∧ ∀ n', s.map n' ≠ some o := by
+  obtain ⟨_, _, hf⟩ := inv_reachable_fd hi hv hr
+  have := hf.drp o ho hd
+  exact ⟨this.1, this.2.2⟩
 
 /-! ## C11_progress
 
